@@ -12,3 +12,8 @@ open Nanite.C04
 #print axioms c04_fit_column
 #print axioms c04_chisq
 #print axioms c04_too_few_points
+#print axioms c04_weights_monotone
+#print axioms c04_weights_symmetric
+#print axioms c04_weighted_sq_le
+#print axioms c04_chisq_nonneg
+#print axioms c04_chisq_weighted_le
